@@ -239,7 +239,7 @@ def evaluate_expression(expr, options=None, locals_=None, builtins=True):
             # Call the function
             try:
                 return func_value(func_args, options)
-            except BareScriptRuntimeError:
+            except (BareScriptRuntimeError, BareScriptParserError):
                 raise
             except Exception as error: # pylint: disable=broad-exception-caught
                 # Log and return null
